@@ -2,19 +2,26 @@
 (***************************************************************************)
 (* C16: batch trace validator for HyMMSBMSampler against Sampler.tla.      *)
 (*                                                                         *)
-(* Input (TRACE_FILE): {"traces": [run, ...]}; a run is one sampler        *)
-(* object and one call of sample(...):                                     *)
+(* Input (TRACE_FILE): {"traces": [run, ...]}; a run is ONE call of        *)
+(* sample(...) on a sampler object (a fresh one, or one that has served    *)
+(* earlier calls: then flag0 is what it reported just before this call):   *)
 (*   mode   "init" | "seqs" | "model" | "partial"                          *)
 (*   n, deg (per spec node 1..n), sizes (flattened dim_seq in iteration    *)
 (*   order), maxsize, idmap (code index k -> spec node idmap[k+1]),        *)
-(*   chain0 (initial_hyg in code indices), ev (events)                     *)
+(*   chain0 (initial_hyg in code indices), ev (events),                    *)
+(*   flag0  matching_sequences of the object before the call (optional,    *)
+(*          default "none" = fresh object)                                 *)
 (* Events, in the order they happened:                                     *)
 (*   extract / mcmc / yield   hooks (only with HGX_VERIF=1): MODEL clauses *)
 (*        m_*  - the logged outcome must be ONE OF the outcomes the action *)
 (*        of Sampler.tla allows from the tracked state                     *)
 (*   sample   what the caller got (public API only): PROPERTY clauses =    *)
 (*        the conjuncts of SamplerPost + SeedFunctional (twin sampler      *)
-(*        built with the same parameters and seed)                         *)
+(*        built with the same parameters and seed).  With hooks the list   *)
+(*        of sampled hyperedges is visible (last yield event + the chain   *)
+(*        tracked through the extract/mcmc events): "whenever no two       *)
+(*        sampled hyperedges coincided" is then decided on that list, not  *)
+(*        only through the number of hyperedges that came out.             *)
 (*   end      how many samples each twin produced within the horizon       *)
 (* Never disabled, never guesses; after every event the tracked state is   *)
 (* the logged one (resynchronisation).                                     *)
@@ -29,6 +36,7 @@ Has(r, f) == f \in DOMAIN r
 SetOf(sq) == SRng(sq)
 SetsOf(sq) == [i \in DOMAIN sq |-> SRng(sq[i])]
 NoYield == [ok |-> FALSE]
+AllSizesAtLeastTwo(cnd) == \A i \in DOMAIN cnd.sizes : cnd.sizes[i] >= 2
 
 \* weighted hypergraph from [[nodes, weight], ...] (first entry wins if a hyperedge is listed twice)
 DecW(o) == [e \in {SRng(p[1]) : p \in SRng(o)} |-> (CHOOSE p \in SRng(o) : SRng(p[1]) = e)[2]]
@@ -57,6 +65,15 @@ SampleClauses(r, ev) ==
         (Conditioned(cnd, ev.flag) /\ TotalsEqual(cnd) /\ NothingLost(cnd, W)) => ExactOut(cnd, W)>>}
   \cup (IF Has(ev, "twin_ok")
         THEN {<<"seed_functional", ev.twin_ok /\ Len(ev.twin) = Len(ev.out) /\ DecW(ev.twin) = W>>} ELSE {})
+  \* PROPERTY, hook-assisted reading of "whenever no two sampled hyperedges coincided": neither the list handed
+  \* to the weighting step (last yield event) nor the chain tracked from the initial configuration through the
+  \* logged moves holds two equal hyperedges.  Nothing else excuses a missing hyperedge: not an earlier sample
+  \* that had a coincidence, not a raw weight of "zero" (the statement has no such exemption).
+  \cup (IF lasty.ok
+        THEN {<<"exact_when_no_coincidence_at_yield",
+                  (Conditioned(cnd, ev.flag) /\ TotalsEqual(cnd) /\ AllSizesAtLeastTwo(cnd)
+                     /\ lasty.cc /\ NoCoincidence(SetsOf(lasty.list))) => ExactOut(cnd, W)>>}
+        ELSE {})
   \* MODEL: the hypergraph is the merge of the logged list under the logged raw weights
   \cup (IF lasty.ok
         THEN {<<"m_yield_out", /\ Len(lasty.w) = Len(lasty.list)
@@ -85,9 +102,17 @@ McmcClauses(r, ev) ==
    <<"m_mcmc_preserves", MovePreserves(SetOf(ev.old1), SetOf(ev.old2), SetOf(ev.new1), SetOf(ev.new2))>>}
 Prefix(sq, k) == [i \in 1..(IF k < Len(sq) THEN k ELSE Len(sq)) |-> sq[i]]
 Suffix(sq, k) == [i \in 1..(IF k < Len(sq) THEN Len(sq) - k ELSE 0) |-> sq[i + k]]
+\* the chain as the design keeps it (invariants SizeCountNeverExceeds, DegNeverExceeds + MatchingMeansExhausted of
+\* MC_Sampler): as many hyperedges of every size as asked for, matching or not; every degree used up when matching
+FlagAtRun == IF flag = "none" THEN "yes" ELSE flag
 YieldClauses(r, ev) ==
-  LET L == SetsOf(ev.list)  fx == Suffix(L, Len(chain)) IN
+  LET L == SetsOf(ev.list)  fx == Suffix(L, Len(chain))  cnd == CndOf(r)  lb == IdMap(r) IN
   {<<"m_yield_chain", Prefix(L, Len(chain)) = chain>>,
+   <<"m_yield_size_counts", (r.mode \in {"init", "seqs"} /\ AllSizesAtLeastTwo(cnd)) =>
+                               /\ Len(L) = Len(cnd.sizes)
+                               /\ \A z \in {Cardinality(L[i]) : i \in DOMAIN L} \cup SRng(cnd.sizes) : ListCount(L, z) = Cnt(cnd.sizes, z)>>,
+   <<"m_yield_degrees", (Conditioned(cnd, FlagAtRun) /\ TotalsEqual(cnd) /\ AllSizesAtLeastTwo(cnd)) =>
+                               \A k \in DOMAIN lb : ListDeg(L, k) = cnd.deg[lb[k]]>>,
    <<"m_yield_fixed", /\ fixedK => fx = fixed
                       /\ r.mode # "model" => fx = <<>>
                       /\ NoCoincidence(fx) /\ \A i \in DOMAIN fx : Cardinality(fx[i]) = 2>>,
@@ -101,13 +126,14 @@ Start(r) ==
    todo  |-> IF r.mode = "seqs" THEN r.sizes ELSE <<>>,
    todoK |-> r.mode = "seqs",
    chain |-> IF r.mode = "init" THEN SetsOf(r.chain0) ELSE <<>>,
+   flag  |-> IF Has(r, "flag0") THEN r.flag0 ELSE "none",
    lab   |-> IdMap(r)]
 
 TInit ==
   /\ ti = 1 /\ li = 1 /\ nbad = 0 /\ nev = 0
   /\ LET s == Start(Traces[1]) IN
-     /\ rem = s.rem /\ remK = s.remK /\ todo = s.todo /\ todoK = s.todoK /\ chain = s.chain /\ lab = s.lab
-  /\ fixed = <<>> /\ fixedK = FALSE /\ flag = "none" /\ lasty = NoYield
+     /\ rem = s.rem /\ remK = s.remK /\ todo = s.todo /\ todoK = s.todoK /\ chain = s.chain /\ lab = s.lab /\ flag = s.flag
+  /\ fixed = <<>> /\ fixedK = FALSE /\ lasty = NoYield
   /\ pad = TRUE /\ keys = {} /\ phase = "trace" /\ out = NoOut /\ clean = FALSE
 
 Judge(r, ev) ==
@@ -126,7 +152,8 @@ TNext ==
      THEN /\ ti' = ti + 1 /\ li' = 1 /\ UNCHANGED <<nbad, nev>>
           /\ LET s == Start(Traces[IF ti < Len(Traces) THEN ti + 1 ELSE ti]) IN
              /\ rem' = s.rem /\ remK' = s.remK /\ todo' = s.todo /\ todoK' = s.todoK /\ chain' = s.chain /\ lab' = s.lab
-          /\ fixed' = <<>> /\ fixedK' = FALSE /\ flag' = "none" /\ lasty' = NoYield
+             /\ flag' = s.flag
+          /\ fixed' = <<>> /\ fixedK' = FALSE /\ lasty' = NoYield
           /\ IF ti < Len(Traces) THEN TRUE ELSE PrintT("DONE " \o ToString(nev) \o " " \o ToString(nbad))
      ELSE LET r == Traces[ti]  ev == r.ev[li]  failed == Judge(r, ev) IN
           /\ li' = li + 1 /\ ti' = ti /\ nev' = nev + 1 /\ UNCHANGED lab
@@ -144,7 +171,7 @@ TNext ==
                [] ev.k = "yield" ->
                   /\ chain' = Prefix(SetsOf(ev.list), Len(chain))
                   /\ fixed' = Suffix(SetsOf(ev.list), Len(chain)) /\ fixedK' = TRUE
-                  /\ lasty' = [ok |-> TRUE, list |-> ev.list, w |-> ev.w]
+                  /\ lasty' = [ok |-> TRUE, list |-> ev.list, w |-> ev.w, cc |-> NoCoincidence(chain)]
                   /\ UNCHANGED <<rem, remK, todo, todoK, flag>>
                [] OTHER ->
                   /\ lasty' = NoYield
